@@ -121,3 +121,10 @@ Theorem c02_throttle_cancel_safe_v5 : forall l, Client.Loop5.lstep5 l Client.Loo
   forall l', Client.Loop5.lstep5 l Client.Loop5.TakeCancelled5 = Client.Loop5.Stepped5 l' ->
     Client.Loop5.pending5 l' = Client.Loop5.pending5 l /\ Client.Loop5.chan5 l' = Client.Loop5.chan5 l /\ Client.Loop5.st5 l' = Client.Loop5.st5 l.
 Proof. exact Client.Loop5Proofs.throttle_cancel_safe5. Qed.
+
+Theorem c02_resume_refused_connack_v5 : forall l tam, Inv5 (Client.Loop5.st5 l) -> Client.Loop5.connected5 l = true ->
+  exists l1 l2, Client.Loop5.lstep5 l Client.Loop5.Fail5 = Client.Loop5.Stepped5 l1 /\
+    Client.Loop5.lstep5 l1 (Client.Loop5.Reconnect5 true (Some 0) tam) = Client.Loop5.Failed5 l2 (Client.Loop5.LE5State (E5ConnFail 130)) /\
+    Client.Loop5.connected5 l2 = false /\
+    forall r, holds5 (Client.Loop5.st5 l) r -> List.In r (Client.Loop5.pending5 l2).
+Proof. exact Client.Loop5Proofs.resume_refused_holds_all5. Qed.
